@@ -50,7 +50,8 @@ def generate(rng, tier, idx):
         ops.insert(rng.randint(1, len(ops)), bad)
     path = "/sim/d/rpms.json"
     ops.append({"op": "dump", "path": path})
-    ops.append({"op": "rp_downgrade", "path": path, "version": pick(rng, ["0.3", "0.3", "0.3", "1.0", "1.1"]), "tag": "C10"})
+    ops.append({"op": "rp_downgrade", "path": path, "version": pick(rng, ["0.3", "0.3", "0.3", "1.0", "1.1"]), "tag": "C10",
+                "decorate": pick(rng, [None, None, "rpm", "dir"])})
     ops.append({"op": "restart", "path": path, "via": pick(rng, ["path", "handle", "loads"]), "offset": rng.randint(0, 500)})
     for _ in range(rng.randint(0, 3)):
         ops.append(gen_mf.rpm_add(rng, arches=arches + ["src"], invalid=0.2))
